@@ -111,6 +111,16 @@ pub fn monitors<P: Payload>(ctx: &Ctx, st: &mut State<P>, info: &StepInfo<P>, he
             cov.add("iterator_runs", starts.len() as u64 * 11);
         }
     }
+    if ctx.is("C10") && info.diverged && heavy {
+        // the laws relate the two ends of one iterator to each other: judged against the iterator's
+        // own forward sequence they need no model
+        if mon::c02_acyclic(&st.arena).is_ok() {
+            ran = true;
+            let starts = guarded(|| mon::raw_live_ids(&st.arena)).unwrap_or_default();
+            obs += push(&mut fs, mon::c10_double_ended_raw(&st.arena, &starts, rng)).unwrap_or(0);
+            cov.bump("raw_law_checks_after_foreign_finding");
+        }
+    }
     if info.diverged {
         if ran {
             cov.evaluations += 1;
@@ -393,7 +403,7 @@ pub fn run_w1<P: Payload>(ctx: &Ctx, cfg: &W1Cfg, index: u64, cov: &mut Cov, hoo
     }
     let mut violation = None;
     let mut outcome_log: Vec<String> = Vec::new();
-    let raw_prop = ctx.is("C01") || ctx.is("C02");
+    let raw_prop = ctx.is("C01") || ctx.is("C02") || ctx.is("C10");
     let mut blind = false;
     let mut blind_steps = 0usize;
     for step in 0..len {
@@ -436,13 +446,19 @@ pub fn run_w1<P: Payload>(ctx: &Ctx, cfg: &W1Cfg, index: u64, cov: &mut Cov, hoo
             if blind_steps > 60 || !liveness_agrees(&st) || step + 1 == len {
                 break;
             }
+            // only C02 is about calls that never return: the other checks do not walk on into a
+            // structure on which a library call may hang
+            if !ctx.is("C02") && (mon::c02_acyclic(&st.arena).is_err() || mon::c01_wellformed(&st.arena).is_err()) {
+                break;
+            }
             continue;
         }
         let (v, stop) = judge(ctx, &fs, cov, &workload, step, &ops);
         if v.is_some() {
             violation = v;
         }
-        if (stop || info.diverged) && violation.is_none() && raw_prop && liveness_agrees(&st) && step + 1 < len {
+        let safe_to_go_on = ctx.is("C02") || (mon::c02_acyclic(&st.arena).is_ok() && mon::c01_wellformed(&st.arena).is_ok());
+        if (stop || info.diverged) && violation.is_none() && raw_prop && safe_to_go_on && liveness_agrees(&st) && step + 1 < len {
             // C01 / C02 quantify over every sequence of valid calls: a structure that another
             // property's monitor already rejected may still turn into a cycle / ill-formed links later
             blind = true;
@@ -934,6 +950,38 @@ pub fn run_w3(ctx: &Ctx, nslots: usize, cycles: u64, mode: u8, cov: &mut Cov) ->
                 return v;
             }
         }
+        if ctx.is("C11") {
+            let r = cyc % 32768;
+            if cyc % 2048 == 0 || cyc == cycles || r <= 48 || r >= 32768 - 8 {
+                let mut live_at: std::collections::HashMap<usize, NodeId> = std::collections::HashMap::new();
+                for (id, slot, removed) in hist.iter() {
+                    if !*removed {
+                        live_at.insert(*slot, *id);
+                    }
+                }
+                let res = guarded(|| {
+                    for slot in 0..arena.count() {
+                        let at = arena.get_node_id_at(std::num::NonZeroUsize::new(slot + 1).unwrap());
+                        let exp = live_at.get(&slot).copied();
+                        if at != exp {
+                            return Some(format!("get_node_id_at({}) = {:?}, expected {:?} (slot re-issued {} times, {} slots retired so far)", slot + 1, at, exp, recycles[slot], retired.len()));
+                        }
+                        if let Some(id) = exp {
+                            if arena.get_node_id(&arena.as_slice()[slot]) != Some(id) || arena.get(id).map(|n| n as *const _) != Some(&arena.as_slice()[slot] as *const _) {
+                                return Some(format!("lookup paths disagree for the live node at position {}", slot + 1));
+                            }
+                        }
+                    }
+                    None
+                });
+                match res {
+                    Ok(None) => evals += arena.count() as u64,
+                    Ok(Some(d)) => return viol("lookup-in-churn", d, cyc),
+                    Err(p) => return viol("lookup-in-churn-panic", p, cyc),
+                }
+                cov.bump("lookup_sweeps_in_generation_churn");
+            }
+        }
         #[cfg(feature = "deser")]
         if ctx.is("C16") {
             let r = cyc % 32768;
@@ -1114,7 +1162,7 @@ pub fn replay_ops<P: Payload>(ctx: &Ctx, ops: &[Op], cov: &mut Cov, tok: bool, h
         if !info.diverged {
             fs.extend(hook.after_step(ctx, &mut st, &info, true, &mut rng, cov));
         }
-        let raw_prop = ctx.is("C01") || ctx.is("C02");
+        let raw_prop = ctx.is("C01") || ctx.is("C02") || ctx.is("C10");
         if blind {
             if let Some(f) = fs.iter().find(|f| ctx.owns(f) && !f.sig.starts_with("model/") && !f.sig.starts_with("outcome/")) {
                 return Some(Violation {
